@@ -111,7 +111,7 @@ class Replayer:
                 if cn in d.graph.nodes and d.feasible:
                     sets = list(cn.iter_conn_edges(d))
                     if sets:
-                        new = d.get_for_apply_connection_choice(cn, sets[0])
+                        new = d.get_for_apply_connection_choice(cn, sets[-1] if op['k'] == 1 else sets[0])
                     else:
                         skipped = True
                 else:
@@ -146,12 +146,18 @@ class Replayer:
                     new = cp.constrain_choices(kind, members)
                 else:
                     skipped = True
+            elif name == 'Decode' and not self.objs[0].feasible:
+                skipped = True         # no processor exists for a design space that is infeasible to begin with
             elif name == 'Decode':
                 if self.proc is None:
                     from adsg_core.optimization.graph_processor import GraphProcessor
                     self.proc = GraphProcessor(self.objs[0])
                 dvs = self.proc.des_vars
-                x = [min(op['k'], dv.n_opts-1) if dv.is_discrete else sum(dv.bounds)/2 for dv in dvs]
+                from adsg_core.graph.adsg_nodes import DesignVariableNode as _DV
+                if op['k'] == 3:       # the architecture of Decode(0) again, with other design-variable-node values
+                    x = [(dv.n_opts-1 if isinstance(dv.node, _DV) else 0) if dv.is_discrete else dv.bounds[1] for dv in dvs]
+                else:
+                    x = [min(op['k'], dv.n_opts-1) if dv.is_discrete else (dv.bounds[0] if op['k'] == 0 else sum(dv.bounds)/2) for dv in dvs]
                 inst, _, _ = self.proc.get_graph(x)
                 new = inst
             else:
